@@ -12,7 +12,7 @@ for id in $ids; do
   if ! git -C /repo diff --quiet; then echo "$id: /repo is dirty, refusing"; exit 2; fi
   if ! git -C /repo apply "$d/patch.diff" 2> "$d/apply.err"; then echo "$id: patch does not apply"; continue; fi
   t0=$(date +%s)
-  ./check all --tier "$tier" > "$d/check_$tier.out" 2> "$d/check_$tier.err"
+  VERIF_EVIDENCE=/verif/.cache/evidence_scratch ./check all --tier "$tier" > "$d/check_$tier.out" 2> "$d/check_$tier.err"
   rc=$?
   git -C /repo checkout -- .
   vio=$(grep -oE "^VIOLATION property=C[0-9]+" "$d/check_$tier.out" | sort -u | sed 's/VIOLATION property=//' | tr '\n' ',' )
